@@ -708,6 +708,14 @@ def name_variants(shape):
     for pi, _ in enumerate(shape['ports']):
         v3[f'port{pi}'] = ['power', 'Power', 'pOwer', 'POWER'][pi % 4]
     variants.append(v3)
+    # the reverse containment: a THIRD event whose name is contained in the names of the first two (the claim / release
+    # events of the multi-client shapes) - needed by seeded change C04-m3 (`name in (claim_name)` on strings)
+    v4 = {}
+    for ii, events in enumerate(shape['itfs']):
+        evn = ['claimed', 'unclaimed', 'claim', 'release', 'Release']
+        for ei, e in enumerate(events):
+            v4[f'itf{ii}_ev{ei}'] = evn[ei % len(evn)] + (str(ii) if ii else '')
+    variants.append(v4)
     return variants
 
 
